@@ -54,3 +54,11 @@ spec("C11", "sync preserves rest", [M.rule_modf, M.rule_modf2], "tmp")
 from sa.rules import typeflow as T
 
 spec("C18", "wrapping transparent", [T.rule_typeflow, T.rule_wrap_last], "tmp")
+
+from sa.rules import table as TB
+
+spec("C01", "docstring round trip", [TB.rule_table_style], "tmp")
+spec("C02", "class round trip", [TB.rule_table_cvar], "tmp")
+spec("C03", "function round trip", [TB.rule_table_kind], "tmp")
+spec("C04", "argparse round trip", [TB.rule_table_argparse], "tmp")
+spec("C17", "defaults through prose", [TB.rule_table_announce], "tmp")
